@@ -165,6 +165,10 @@ def model_vs_numpy(world, e, ref):
     root = nodes[-1]
     anybad = any(n['bad'] for n in nodes)
     for pt, (vals, fail) in enumerate(ref):
+        if fail is not None and isinstance(fail[1], IndexError):
+            fn = nodes[fail[0] - 1]
+            if (fn['op'] == 'take' and not fn['p']['lit']) or (fn['op'] == 'getitem' and any(it['k'] == 'node' for it in ops.seq(fn['p']))) or fn['op'] == 'choose':
+                return 'undefined'          # run-time index out of range: the model marks the ENTRIES undefined, which an empty result cannot show
         if fail is not None and fail[0] != len(nodes):
             # numpy refuses an inner call on these data although the model gives it a (partly undefined) value:
             # run-time index out of range and the like
